@@ -10,48 +10,40 @@ Definition cfg_ok (c : kcfg) : Prop := 0 < kc_time c /\ 0 < kc_timeout c.
 (* ================= Part A: the loop ================= *)
 Record kinv (c : kcfg) (s : kst) : Prop := {
   i_left : 0 <= k_left s;
-  i_str : 0 <= k_streams s;
-  i_timer : k_closed s = false -> k_dorm s = false ->
-            (k_wake s = false -> k_prev s + kc_time c <= k_timer s) /\ k_now s <= k_timer s;
-  i_out : k_out s = true -> (k_wake s = false -> k_prev s + kc_time c <= k_ping s) /\
-                            k_timer s + k_left s = k_ping s + kc_timeout c;
-  i_dorm : k_dorm s = true -> k_out s = false;
-  i_closed : k_closed s = true -> k_last s <= k_prev s /\
-             (k_wake s = false -> k_prev s + kc_time c + kc_timeout c <= k_timer s) /\
-             k_out s = true /\ k_left s = 0;
-  i_wk : k_wake s = true -> k_out s = true \/ k_dorm s = true }.
+  i_timer : k_closed s = false -> k_dorm s = false -> k_prev s + kc_time c <= k_timer s /\ k_now s <= k_timer s;
+  i_out : k_out s = true -> k_prev s + kc_time c <= k_ping s /\ k_timer s + k_left s = k_ping s + kc_timeout c;
+  i_dorm : k_dorm s = true -> k_prev s + kc_time c <= k_now s /\ k_out s = false;
+  i_closed : k_closed s = true -> k_last s <= k_prev s /\ k_prev s + kc_time c + kc_timeout c <= k_timer s /\
+                                 k_out s = true /\ k_left s = 0;
+  i_str : 0 <= k_streams s }.
 
 Lemma kinv_init c : cfg_ok c -> kinv c (kinit c).
 Proof. intros [A B]. constructor; cbn; intros; try discriminate; try lia. Qed.
 
-Ltac kfin := repeat split; intros;
-  repeat match goal with H : k_wake ?x = false -> _, W : k_wake ?x = false |- _ => specialize (H W) end;
-  try lia; try congruence; auto.
-
 Lemma ping_inv c s t : cfg_ok c -> kinv c s -> k_closed s = false ->
-  (k_wake s = false -> k_prev s + kc_time c <= t) -> (k_out s = true -> t = k_timer s) ->
+  k_prev s + kc_time c <= t -> (k_out s = true -> t = k_timer s) ->
   kinv c (fst (ping_and_sleep c s t)).
 Proof.
   intros [Ct Co] I Cl Ht Hout. unfold ping_and_sleep. cbn [fst]. pose proof (i_str _ _ I) as St.
   destruct (k_out s) eqn:O; cbn [negb].
   - (* ping still outstanding: only the timer is re-armed *)
     destruct (i_out _ _ I O) as [P1 P2]. pose proof (i_left _ _ I). specialize (Hout eq_refl). subst t.
-    constructor; cbn; intros; try discriminate; kfin.
-  - constructor; cbn; intros; try discriminate; kfin.
+    constructor; cbn; intros; try discriminate; try lia.
+  - constructor; cbn; intros; try discriminate; try lia.
 Qed.
 
 Lemma fire_inv c s : cfg_ok c -> kinv c s -> k_closed s = false -> k_dorm s = false ->
   kinv c (fst (fire c s)).
 Proof.
   intros C I Cl D. pose proof C as [Ct Co]. unfold fire.
-  pose proof (i_left _ _ I) as L. pose proof (i_str _ _ I) as St. pose proof (i_timer _ _ I Cl D) as [T T'].
+  pose proof (i_left _ _ I) as L. pose proof (i_timer _ _ I Cl D) as [T T']. pose proof (i_str _ _ I) as St.
   destruct (Z.ltb_spec (k_prev s) (k_last s)).
-  - constructor; cbn; intros; try discriminate; kfin.
+  - constructor; cbn; intros; try discriminate; try lia.
   - destruct (k_out s && (k_left s <=? 0)) eqn:E.
     + apply andb_true_iff in E as [O E]. apply Z.leb_le in E. destruct (i_out _ _ I O) as [P1 P2].
-      constructor; cbn; intros; try discriminate; kfin.
+      constructor; cbn; intros; try discriminate; try lia; try (repeat split; auto; lia).
     + destruct ((k_streams s <? 1) && negb (kc_permit c)).
-      * constructor; cbn; intros; try discriminate; kfin.
+      * constructor; cbn; intros; try discriminate; try lia; try (split; [lia|reflexivity]).
       * apply ping_inv; auto.
 Qed.
 
@@ -59,29 +51,29 @@ Lemma closed_frozen_adv fuel c s target : k_closed s = true ->
   let s' := fst (advance fuel c s target) in
   k_closed s' = true /\ k_last s' = k_last s /\ k_prev s' = k_prev s /\ k_timer s' = k_timer s /\
   k_ping s' = k_ping s /\ k_out s' = k_out s /\ k_left s' = k_left s /\ k_dorm s' = k_dorm s /\
-  snd (advance fuel c s target) = [] /\ k_wake s' = k_wake s.
-Proof. intros H. destruct fuel; cbn; [auto 12|]. rewrite H. cbn. auto 12. Qed.
+  snd (advance fuel c s target) = [].
+Proof. intros H. destruct fuel; cbn; [auto 10|]. rewrite H. cbn. auto 10. Qed.
 
 (* the checker that the clauses run over the events of one op: a close event must come more than
-   Time after the last read (lv) unless it follows a wake-up ping (wk), exactly Timeout after the
-   last ping (p), and no later than Timeout after a stale wake-up (hw >= 0) *)
-Fixpoint chk (c : kcfg) (lv hw : Z) (wk : bool) (p : Z) (l : list (Z * Z)) : bool * Z :=
+   Time after the last read (lv), exactly Timeout after the last ping (p), and no later than
+   hw + Timeout when a stale wake-up is on record (hw >= 0) *)
+Fixpoint chk (c : kcfg) (lv hw p : Z) (l : list (Z * Z)) : bool * Z :=
   match l with
   | [] => (true, p)
   | (tg, v) :: r =>
-    if tg =? 6 then chk c lv hw wk v r
+    if tg =? 6 then chk c lv hw v r
     else if tg =? 8 then
-      let '(b, p') := chk c lv hw wk p r in
-      ((wk || (lv + kc_time c <? v)) && (v =? p + kc_timeout c) && ((hw <? 0) || (v <=? hw + kc_timeout c)) && b, p')
-    else chk c lv hw wk p r
+      let '(b, p') := chk c lv hw p r in
+      ((lv + kc_time c <? v) && (v =? p + kc_timeout c) && ((hw <? 0) || (v <=? hw + kc_timeout c)) && b, p')
+    else chk c lv hw p r
   end.
-Lemma chk_app c lv hw wk p a b : chk c lv hw wk p (a ++ b) =
-  let '(b1, p1) := chk c lv hw wk p a in let '(b2, p2) := chk c lv hw wk p1 b in (b1 && b2, p2).
+Lemma chk_app c lv hw p a b : chk c lv hw p (a ++ b) =
+  let '(b1, p1) := chk c lv hw p a in let '(b2, p2) := chk c lv hw p1 b in (b1 && b2, p2).
 Proof.
   revert p. induction a as [|[tg v] a IH]; intros p; cbn [app chk].
-  - destruct (chk c lv hw wk p b). reflexivity.
+  - destruct (chk c lv hw p b). reflexivity.
   - destruct (tg =? 6); [apply IH|]. destruct (tg =? 8); [|apply IH].
-    rewrite IH. destruct (chk c lv hw wk p a) as [b1 p1]. destruct (chk c lv hw wk p1 b) as [b2 p2].
+    rewrite IH. destruct (chk c lv hw p a) as [b1 p1]. destruct (chk c lv hw p1 b) as [b2 p2].
     rewrite <- !andb_assoc. reflexivity.
 Qed.
 
@@ -98,22 +90,23 @@ Proof.
   unfold ping_and_sleep. destruct (k_out s); cbn; auto 10.
 Qed.
 
-Definition final_ok (s : kst) (lv hw : Z) (wk : bool) : Prop :=
-  k_closed s = true -> lv = k_last s /\ wk = k_wake s /\ (hw < 0 \/ k_ping s = hw).
+Definition final_ok (s : kst) (lv hw : Z) : Prop :=
+  k_closed s = true -> lv = k_last s /\ (hw < 0 \/ k_ping s = hw).
 
 Lemma advance_ok fuel c : cfg_ok c -> forall s target, kinv c s -> k_now s <= target ->
   let r := advance fuel c s target in
   kinv c (fst r) /\ (k_now s <= k_now (fst r)) /\
-  forall lv hw wk, final_ok (fst r) lv hw wk -> chk c lv hw wk (k_ping s) (snd r) = (true, k_ping (fst r)).
+  forall lv hw, final_ok (fst r) lv hw -> chk c lv hw (k_ping s) (snd r) = (true, k_ping (fst r)).
 Proof.
   intros C. induction fuel as [|f IH]; intros s target I Hn; cbv zeta; cbn [advance].
   - cbn. split; [exact I|]. split; [lia|]. intros; reflexivity.
   - destruct (k_closed s || k_dorm s || (target <=? k_timer s)) eqn:E.
     + cbn [fst snd chk]. split; [|split; [cbn; lia|intros; reflexivity]].
       apply orb_true_iff in E.
-      destruct I as [A A0 B D F G W]. constructor; cbn; auto.
-      intros H1 H2. destruct (B H1 H2) as [B1 B2]. split; [exact B1|].
-      destruct E as [E|E]; [rewrite H1, H2 in E; discriminate|]. apply Z.leb_le in E. exact E.
+      destruct I as [A B D F G S]. constructor; cbn; auto.
+      * intros H1 H2. destruct (B H1 H2) as [B1 B2]. split; [exact B1|].
+        destruct E as [E|E]; [rewrite H1, H2 in E; discriminate|]. apply Z.leb_le in E. exact E.
+      * intros H. destruct (F H). split; [lia|auto].
     + apply orb_false_iff in E as [E E3]. apply orb_false_iff in E as [E1 E2].
       pose proof (fire_inv c s C I E1 E2) as I1.
       destruct (fire_shape c s E1 E2) as [Hnow Hf].
@@ -125,17 +118,16 @@ Proof.
       pose proof (closed_frozen_adv f c s1 target) as Fz.
       destruct (advance f c s1 target) as [s2 e2]. cbn [fst snd] in *.
       split; [exact IH1|]. split; [lia|].
-      intros lv hw wk Hlv. rewrite chk_app.
+      intros lv hw Hlv. rewrite chk_app.
       destruct Hf as [(-> & Hp & _)|[(-> & Hp & _)|(-> & Hp & Hc & Ht)]].
-      * cbn [chk]. rewrite <- Hp. rewrite (IH3 lv hw wk Hlv). reflexivity.
-      * cbn [chk Z.eqb Pos.eqb]. rewrite <- Hp. rewrite (IH3 lv hw wk Hlv). reflexivity.
+      * cbn [chk]. rewrite <- Hp. rewrite (IH3 lv hw Hlv). reflexivity.
+      * cbn [chk Z.eqb Pos.eqb]. rewrite <- Hp. rewrite (IH3 lv hw Hlv). reflexivity.
       * cbn [chk Z.eqb Pos.eqb].
-        destruct (Fz Hc) as (F1 & F2 & F3 & F4 & F5 & F6 & F7 & F8 & F9 & F10). subst e2. cbn [chk].
-        destruct (Hlv F1) as (L1 & L2 & L3). rewrite L1, L2, F2, F5, F10, Hp. rewrite F5, Hp in L3.
+        destruct (Fz Hc) as (F1 & F2 & F3 & F4 & F5 & F6 & F7 & F8 & F9). subst e2. cbn [chk].
+        destruct (Hlv F1) as (L1 & L3). rewrite F5, Hp in L3. rewrite L1, F2, F5, Hp.
         destruct (i_closed _ _ I1 Hc) as (G1 & G2 & G3 & G4). destruct (i_out _ _ I1 G3) as [P1 P2].
         destruct C as [Ct Co]. rewrite Ht in *.
-        assert (X1 : k_wake s1 || (k_last s1 + kc_time c <? k_timer s) = true).
-        { destruct (k_wake s1); [reflexivity|]. specialize (G2 eq_refl). cbn. apply Z.ltb_lt. lia. }
+        assert (X1 : (k_last s1 + kc_time c <? k_timer s) = true) by (apply Z.ltb_lt; lia).
         assert (X2 : (k_timer s =? k_ping s + kc_timeout c) = true) by (apply Z.eqb_eq; lia).
         assert (X3 : (hw <? 0) || (k_timer s <=? hw + kc_timeout c) = true).
         { destruct (Z.ltb_spec hw 0); [reflexivity|]. destruct L3 as [L3|L3]; [lia|]. cbn. apply Z.leb_le. lia. }
@@ -153,17 +145,30 @@ Lemma act_ok c s o : cfg_ok c -> kinv c s ->
   k_closed (fst r) = k_closed s.
 Proof.
   intros C I. cbv zeta. unfold act. destruct (k_closed s) eqn:Cl; [cbn; auto 10|].
-  assert (Same : forall l st ak, 0 <= st -> kinv c (mkk (k_now s) l (k_prev s) (k_out s) (k_left s) (k_timer s) (k_dorm s) st false ak (k_ping s) (k_wake s))).
-  { intros l st ak Hst. destruct I as [A A0 B D F G W]. rewrite Cl in *. constructor; cbn; auto. intros; discriminate. }
   pose proof (i_str _ _ I) as St.
+  assert (Same : forall l st ak, 0 <= st -> kinv c (mkk (k_now s) l (k_prev s) (k_out s) (k_left s) (k_timer s) (k_dorm s) st false ak (k_ping s))).
+  { intros l st ak Hst. destruct I as [A B D F G S]. rewrite Cl in *. constructor; cbn; auto. intros; discriminate. }
   destruct o; cbn [fst snd].
   - split; [exact I|]. act_fin.
   - split; [apply Same; lia|]. act_fin.
   - destruct (k_dorm s) eqn:Dm.
-    + pose proof (i_dorm _ _ I Dm) as D2. split.
-      * apply ping_inv; [exact C | | reflexivity | cbn; intros; discriminate | cbn; rewrite D2; intros; discriminate].
-        destruct I as [A A0 B D F G W]. rewrite Cl, Dm in *. constructor; cbn; intros; try discriminate; kfin.
-      * unfold ping_and_sleep. cbn. rewrite D2. act_fin.
+    + destruct (i_dorm _ _ I Dm) as [D1 D2]. destruct C as [Ct Co] eqn:EC.
+      destruct (Z.ltb_spec (k_prev s) (k_last s)).
+      * (* a byte was read while dormant *)
+        assert (I2 : kinv c (mkk (k_now s) (k_last s) (k_last s) false (k_left s) (Z.max (k_now s) (k_last s + kc_time c)) false
+                                 (k_streams s + 1) false (k_ack s) (k_ping s))).
+        { pose proof (i_left _ _ I). constructor; cbn; intros; try discriminate; try lia. }
+        cbn [k_timer k_now].
+        destruct (Z.leb_spec (Z.max (k_now s) (k_last s + kc_time c)) (k_now s)) as [Hm|Hm].
+        -- assert (Tm : Z.max (k_now s) (k_last s + kc_time c) = k_now s) by lia.
+           split; [apply fire_inv; auto|].
+           unfold fire. cbn [k_prev k_last k_out k_timer k_streams andb]. rewrite Z.ltb_irrefl.
+           destruct (Z.ltb_spec (k_streams s + 1) 1); [pose proof (i_str _ _ I); lia|]. cbn [andb].
+           unfold ping_and_sleep. cbn. rewrite Tm. act_fin.
+        -- split; [exact I2|]. act_fin.
+      * split.
+        -- apply ping_inv; [exact C | apply Same; lia | reflexivity | cbn; lia | cbn; rewrite D2; intros; discriminate].
+        -- unfold ping_and_sleep. cbn. rewrite D2. act_fin.
     + split; [apply Same; lia|]. act_fin.
   - destruct (Z.ltb_spec 0 (k_streams s)); (split; [first [apply Same; lia|exact I]|act_fin]).
   - split; [apply Same; lia|]. act_fin.
@@ -173,17 +178,17 @@ Qed.
 Lemma kstep_ok c s x o : cfg_ok c -> 0 <= x -> kinv c s ->
   let r := kstep c s x o in
   kinv c (fst r) /\
-  forall lv hw wk, final_ok (fst r) lv hw wk -> chk c lv hw wk (k_ping s) (snd r) = (true, k_ping (fst r)).
+  forall lv hw, final_ok (fst r) lv hw -> chk c lv hw (k_ping s) (snd r) = (true, k_ping (fst r)).
 Proof.
   intros C Hx I. cbv zeta. unfold kstep.
   destruct (advance_ok (fuel_for c (1000 * x + 1)) c C s (k_now s + (1000 * x + 1)) I ltac:(lia)) as (A1 & A2 & A3).
   destruct (advance (fuel_for c (1000 * x + 1)) c s (k_now s + (1000 * x + 1))) as [s1 e1]. cbn [fst snd] in *.
   destruct (act_ok c s1 o C A1) as (B1 & B2 & B3 & B4 & B5).
   destruct (act c s1 o) as [s2 e2]. cbn [fst snd] in *.
-  split; [exact B1|]. intros lv hw wk Hlv. rewrite chk_app.
+  split; [exact B1|]. intros lv hw Hlv. rewrite chk_app.
   destruct (k_closed s1) eqn:Cl.
-  - destruct (B3 eq_refl) as [-> ->]. rewrite (A3 lv hw wk Hlv). reflexivity.
-  - assert (A3' : chk c lv hw wk (k_ping s) e1 = (true, k_ping s1)).
+  - destruct (B3 eq_refl) as [-> ->]. rewrite (A3 lv hw Hlv). reflexivity.
+  - assert (A3' : chk c lv hw (k_ping s) e1 = (true, k_ping s1)).
     { apply A3. intros H. rewrite Cl in H. discriminate. }
     rewrite A3'.
     destruct B4 as [(-> & P)|(-> & P)]; cbn [chk Z.eqb Pos.eqb]; rewrite P; reflexivity.
@@ -200,28 +205,17 @@ Proof.
   inversion X; subst. apply IH; auto. apply (kstep_ok c s x o C H1 I).
 Qed.
 
-(* whatever the timeline: a transport closed by keepalive was closed exactly Timeout after its
-   last ping with nothing read in between, and - unless that ping was the one sent on waking
-   up from dormancy - nothing had been read during the Time + Timeout before the close
+(* whatever the timeline: a transport closed by keepalive had read nothing during the
+   Time + Timeout before the close, and the close came exactly Timeout after the last ping
    (k_timer is the instant of the close) *)
 Theorem healthy_never_killed c ops : cfg_ok c -> xs_ok ops ->
   let s := kreach c (kinit c) ops in
   k_closed s = true ->
-  k_timer s = k_ping s + kc_timeout c /\ k_last s <= k_prev s /\
-  (k_wake s = false -> k_last s + kc_time c + kc_timeout c <= k_timer s).
+  k_last s + kc_time c + kc_timeout c <= k_timer s /\ k_timer s = k_ping s + kc_timeout c.
 Proof.
   intros C X s Cl. pose proof (kinv_reach c ops C (kinit c) X (kinv_init c C)) as I. fold s in I.
-  destruct (i_closed _ _ I Cl) as (A & B & O & L). destruct (i_out _ _ I O) as [P1 P2].
-  split; [lia|]. split; [exact A|]. intros W. specialize (B W). lia.
+  destruct (i_closed _ _ I Cl) as (A & B & O & L). destruct (i_out _ _ I O) as [P1 P2]. lia.
 Qed.
-
-(* ... and with a wake-up ping the literal sentence "a connection that receives some byte at
-   least once every Time is never closed" fails: Time 2 s, Timeout 1 s, dormant; a byte at
-   3.002 s, a stream at 3.003 s: ping at 3.003 s, closed at 4.003 s, 1.001 s after that byte *)
-Lemma wake_ping_kills_recently_heard_peer :
-  krun (mkkc 2000 1000 false) (kinit (mkkc 2000 1000 false)) [(1, KWait); (2, KRead); (0, KOpen); (1, KWait)] =
-  [[1001]; [3002]; [3003; 6; 3003]; [4004; 8; 4003]].
-Proof. vm_compute. reflexivity. Qed.
 
 (* the timer after a read has been noticed: next firing Time after that read *)
 Lemma fire_observes_read c s : k_prev s < k_last s ->
@@ -245,7 +239,7 @@ Qed.
    is closed exactly Timeout after the ping *)
 Lemma advance_S f c s target : advance (S f) c s target =
   if k_closed s || k_dorm s || (target <=? k_timer s) then
-    (mkk target (k_last s) (k_prev s) (k_out s) (k_left s) (k_timer s) (k_dorm s) (k_streams s) (k_closed s) (k_ack s) (k_ping s) (k_wake s), [])
+    (mkk target (k_last s) (k_prev s) (k_out s) (k_left s) (k_timer s) (k_dorm s) (k_streams s) (k_closed s) (k_ack s) (k_ping s), [])
   else let '(s1, e1) := fire c s in let '(s2, e2) := advance f c s1 target in (s2, e1 ++ e2).
 Proof. reflexivity. Qed.
 
@@ -262,30 +256,30 @@ Proof.
     rewrite advance_S; rewrite Cl, D; cbn [orb]; (destruct (Z.leb_spec target (k_timer s)); [lia|]).
   - (* timeoutLeft = 0: this firing closes *)
     assert (Z0 : k_left s = 0) by lia.
-    assert (F : fire c s = (mkk (k_timer s) (k_last s) (k_prev s) (k_out s) (k_left s) (k_timer s) false (k_streams s) true (k_ack s) (k_ping s) (k_wake s), [(8, k_timer s)])).
+    assert (F : fire c s = (mkk (k_timer s) (k_last s) (k_prev s) (k_out s) (k_left s) (k_timer s) false (k_streams s) true (k_ack s) (k_ping s), [(8, k_timer s)])).
     { unfold fire. destruct (Z.ltb_spec (k_prev s) (k_last s)); [lia|]. rewrite O. cbn [andb].
       destruct (Z.leb_spec (k_left s) 0); [reflexivity|lia]. }
     rewrite F. cbn. repeat split; try lia. exists []. cbn. f_equal. f_equal. lia.
   - destruct (Z.eq_dec (k_left s) 0) as [Z0|Z0].
-    + assert (F : fire c s = (mkk (k_timer s) (k_last s) (k_prev s) (k_out s) (k_left s) (k_timer s) false (k_streams s) true (k_ack s) (k_ping s) (k_wake s), [(8, k_timer s)])).
+    + assert (F : fire c s = (mkk (k_timer s) (k_last s) (k_prev s) (k_out s) (k_left s) (k_timer s) false (k_streams s) true (k_ack s) (k_ping s), [(8, k_timer s)])).
       { unfold fire. destruct (Z.ltb_spec (k_prev s) (k_last s)); [lia|]. rewrite O. cbn [andb].
         destruct (Z.leb_spec (k_left s) 0); [reflexivity|lia]. }
       rewrite F.
       match goal with |- context [advance (S k) c ?s1 target] =>
-        destruct (closed_frozen_adv (S k) c s1 target eq_refl) as (F1 & _ & _ & F4 & _ & _ & _ & _ & F9 & _);
+        destruct (closed_frozen_adv (S k) c s1 target eq_refl) as (F1 & _ & _ & F4 & _ & _ & _ & _ & F9);
         destruct (advance (S k) c s1 target) as [s2 e2] end.
       cbn [fst snd] in *. subst e2. rewrite F4. cbn. repeat split; auto; try lia. exists []. cbn. f_equal. f_equal. lia.
     + assert (E : (k_streams s <? 1) && negb (kc_permit c) = false).
       { destruct A as [A|A]; [rewrite A; apply andb_false_r|]. destruct (Z.ltb_spec (k_streams s) 1); [lia|reflexivity]. }
       pose proof (fire_inv c s C I Cl D) as I1.
       assert (F : fire c s = (mkk (k_timer s) (k_last s) (k_prev s) true (k_left s - Z.min (kc_time c) (k_left s))
-                                  (k_timer s + Z.min (kc_time c) (k_left s)) false (k_streams s) false (k_ack s) (k_ping s) (k_wake s), [])).
+                                  (k_timer s + Z.min (kc_time c) (k_left s)) false (k_streams s) false (k_ack s) (k_ping s), [])).
       { unfold fire. destruct (Z.ltb_spec (k_prev s) (k_last s)); [lia|]. rewrite O. cbn [andb].
         destruct (Z.leb_spec (k_left s) 0); [lia|]. rewrite E. unfold ping_and_sleep. rewrite O. cbn. reflexivity. }
       rewrite F in *. cbn [fst] in I1.
       match goal with |- context [advance (S k) c ?s1 target] =>
         specialize (IH s1 target I1 eq_refl eq_refl eq_refl) end.
-      cbn [k_last k_prev k_streams k_left k_timer k_ping k_wake] in IH.
+      cbn [k_last k_prev k_streams k_left k_timer k_ping] in IH.
       assert (H1 : k_left s - Z.min (kc_time c) (k_left s) <= Z.of_nat k * kc_time c).
       { rewrite Nat2Z.inj_succ in L. destruct (Z.min_spec (kc_time c) (k_left s)) as [[_ ->]|[_ ->]]; lia. }
       assert (H2 : k_timer s + Z.min (kc_time c) (k_left s) + (k_left s - Z.min (kc_time c) (k_left s)) < target) by lia.
@@ -294,25 +288,47 @@ Proof.
       cbn [fst snd] in *. destruct IH as (J1 & J2 & pre & J3). repeat split; auto. exists pre. exact J3.
 Qed.
 
-(* the old witness of the stale-read defect: Time = 10 s, Timeout = 5 s, no stream; a byte at
-   92.002 s while dormant; a stream at 192.003 s.  One ping, at the wake-up, and the dead peer
-   is closed at 197.003 s = wake-up + Timeout *)
+(* the witness of the former stale-read defect: Time = 10 s, Timeout = 5 s, no stream; a byte at
+   92.002 s while dormant; a stream at 192.003 s.  One ping, at the wake-up (the byte is more
+   than Time old), and the silent peer is closed at 197.003 s = max(t0 + Time, a) + Timeout *)
 Lemma dormancy_wake_bound_witness :
   krun (mkkc 10000 5000 false) (kinit (mkkc 10000 5000 false))
        [(12, KWait); (80, KRead); (100, KOpen); (4, KWait); (0, KWait); (4, KWait); (1, KWait); (10, KWait)] =
   [[12001]; [92002]; [192003; 6; 192003]; [196004]; [196005]; [200006; 8; 197003]; [201007]; [211008]].
 Proof. vm_compute. reflexivity. Qed.
 
-(* in general: a wake-up from dormancy pings at once with prevNano = lastRead, so (by
-   ping_to_close) a peer that stays silent is closed exactly Timeout after the wake-up *)
-Lemma wake_pings c s : cfg_ok c -> kinv c s -> k_closed s = false -> k_dorm s = true ->
+(* the witness against the first repair: Time 2 s, Timeout 1 s, dormant; a byte at 3.002 s, a
+   stream at 3.003 s.  No ping on wake-up: the peer was heard 1 ms ago; the ping comes at
+   5.002 s = t0 + Time and the still silent peer is closed at 6.002 s, not at 4.003 s *)
+Lemma wake_does_not_kill_recently_heard_peer :
+  krun (mkkc 2000 1000 false) (kinit (mkkc 2000 1000 false))
+       [(1, KWait); (2, KRead); (0, KOpen); (1, KWait); (1, KWait); (1, KWait)] =
+  [[1001]; [3002]; [3003]; [4004]; [5005; 6; 5002]; [6006; 8; 6002]].
+Proof. vm_compute. reflexivity. Qed.
+
+(* wake-up from dormancy, in general: with an unobserved byte (prev < last) no ping is sent
+   before last + Time; without one the ping goes out at once *)
+Lemma wake_step c s : cfg_ok c -> kinv c s -> k_closed s = false -> k_dorm s = true ->
   let r := act c s KOpen in
-  snd r = [(6, k_now s)] /\ k_ping (fst r) = k_now s /\ k_out (fst r) = true /\ k_dorm (fst r) = false /\
-  k_prev (fst r) = k_last s /\ (k_ack s = false -> k_last (fst r) = k_last s) /\
-  k_timer (fst r) + k_left (fst r) = k_now s + kc_timeout c /\ k_streams (fst r) = k_streams s + 1.
+  k_dorm (fst r) = false /\
+  (k_prev s < k_last s ->
+     k_prev (fst r) = k_last s /\
+     (k_now s < k_last s + kc_time c -> snd r = [] /\ k_out (fst r) = false /\ k_timer (fst r) = k_last s + kc_time c) /\
+     (k_last s + kc_time c <= k_now s -> snd r = [(6, k_now s)] /\ k_ping (fst r) = k_now s /\ k_out (fst r) = true)) /\
+  (k_last s <= k_prev s -> snd r = [(6, k_now s)] /\ k_ping (fst r) = k_now s /\ k_out (fst r) = true /\
+                           k_timer (fst r) + k_left (fst r) = k_now s + kc_timeout c).
 Proof.
-  intros C I Cl D. cbv zeta. unfold act. rewrite Cl, D. pose proof (i_dorm _ _ I D) as O.
-  unfold ping_and_sleep. cbn. rewrite O. cbn. repeat split; try lia. intros A. rewrite A. reflexivity.
+  intros C I Cl D. cbv zeta. unfold act. rewrite Cl, D. destruct (i_dorm _ _ I D) as [_ O]. pose proof (i_str _ _ I) as St.
+  destruct (Z.ltb_spec (k_prev s) (k_last s)) as [H|H].
+  - cbn [k_timer k_now].
+    destruct (Z.leb_spec (Z.max (k_now s) (k_last s + kc_time c)) (k_now s)) as [Hm|Hm].
+    + unfold fire. cbn [k_prev k_last k_out k_timer k_streams andb]. rewrite Z.ltb_irrefl.
+      destruct (Z.ltb_spec (k_streams s + 1) 1); [lia|]. cbn [andb]. unfold ping_and_sleep. cbn.
+      assert (Tm : Z.max (k_now s) (k_last s + kc_time c) = k_now s) by lia. rewrite Tm.
+      split; [reflexivity|]. split; [|intros; lia]. intros _. split; [reflexivity|]. split; [intros; lia|]. auto.
+    + cbn. split; [reflexivity|]. split; [|intros; lia]. intros _. split; [reflexivity|]. split; [|intros; lia].
+      intros _. repeat split; lia.
+  - unfold ping_and_sleep. cbn. rewrite O. cbn. split; [reflexivity|]. split; [intros; lia|]. intros _. repeat split; lia.
 Qed.
 
 (* ================= Part B: the ledger ================= *)
@@ -369,63 +385,67 @@ Proof.
   unfold evs. apply pairs_flat. unfold flat. induction l as [|[a b] l IH]; cbn [flat_map length app]; lia.
 Qed.
 
-Lemma fold_chk c lv hw wk l : forall cl0 p0 pf,
-  forallb okc cl0 = true -> chk c lv hw wk p0 l = (true, pf) ->
-  forallb okc (fst (fold_left (kcl_step c lv hw wk) l (cl0, p0))) = true /\
-  snd (fold_left (kcl_step c lv hw wk) l (cl0, p0)) = pf.
+Lemma fold_chk c lv hw l : forall cl0 p0 pf,
+  forallb okc cl0 = true -> chk c lv hw p0 l = (true, pf) ->
+  forallb okc (fst (fold_left (kcl_step c lv hw) l (cl0, p0))) = true /\
+  snd (fold_left (kcl_step c lv hw) l (cl0, p0)) = pf.
 Proof.
   induction l as [|[tg v] l IH]; intros cl0 p0 pf H0 H; cbn [fold_left chk] in *.
   - inversion H; subst. auto.
-  - assert (E0 : kcl_step c lv hw wk (cl0, p0) (tg, v) =
+  - assert (E0 : kcl_step c lv hw (cl0, p0) (tg, v) =
                  if tg =? 6 then (cl0, v)
                  else if tg =? 8 then
-                   (cl0 ++ [ (2, v, wk || (lv + kc_time c <? v)); (3, v, v =? p0 + kc_timeout c);
+                   (cl0 ++ [ (2, v, (0 <=? hw) || (lv + kc_time c <? v)); (3, v, v =? p0 + kc_timeout c);
                              (4, v, (hw <? 0) || (v <=? hw + kc_timeout c));
-                             (5, v, negb wk || (lv + kc_time c <? v)) ], p0)
+                             (5, v, (hw <? 0) || (lv + kc_time c <? v)) ], p0)
                  else (cl0, p0)) by reflexivity.
     rewrite E0. clear E0. destruct (tg =? 6); [apply IH; auto|].
     destruct (tg =? 8); [|apply IH; auto].
-    destruct (chk c lv hw wk p0 l) as [b p'] eqn:E. injection H as Hb Hp.
+    destruct (chk c lv hw p0 l) as [b p'] eqn:E. injection H as Hb Hp.
     apply andb_true_iff in Hb as [Hb Hb4]. apply andb_true_iff in Hb as [Hb Hb3]. apply andb_true_iff in Hb as [Hb1 Hb2].
     rewrite Hb4, Hp in E.
-    apply IH; auto. rewrite !forallb_app, H0. cbn [forallb andb]. unfold okc. cbn [fst snd finding_clause Z.eqb Pos.eqb orb].
-    rewrite Hb1, Hb2, Hb3. reflexivity.
+    apply IH; auto. rewrite !forallb_app, H0. cbn [forallb andb]. unfold okc. cbn [fst snd finding_clause orb].
+    rewrite Hb1, Hb2, Hb3, !orb_true_r. reflexivity.
 Qed.
 
-(* the stale wake-up recorded by the clause thread is the model's last ping, still outstanding,
-   with nothing that could cancel it *)
+(* a stale wake-up on record: hw = max(t0 + Time, a) is when the ping goes out (or went out);
+   nothing can cancel it *)
 Definition winv (s : kst) (hw : Z) : Prop :=
-  hw < 0 \/ (k_ping s = hw /\ (k_closed s = true \/
-               (k_out s = true /\ k_last s <= k_prev s /\ 1 <= k_streams s /\ k_ack s = false /\ k_dorm s = false))).
+  hw < 0 \/ (k_closed s = true /\ k_ping s = hw) \/
+  (k_closed s = false /\ k_dorm s = false /\ 1 <= k_streams s /\ k_ack s = false /\ k_last s <= k_prev s /\
+   ((k_out s = false /\ k_timer s = hw) \/ (k_out s = true /\ k_ping s = hw))).
 
 Lemma winv_fire c s hw : winv s hw -> k_closed s = false -> k_dorm s = false -> winv (fst (fire c s)) hw.
 Proof.
-  intros [H|(P & [H|(O & L & St & A & D)])] Cl Dm; [left; exact H|congruence|]. right. unfold fire.
-  destruct (Z.ltb_spec (k_prev s) (k_last s)); [lia|]. rewrite O. cbn [andb].
-  destruct (k_left s <=? 0); [cbn; auto|].
-  destruct (Z.ltb_spec (k_streams s) 1); [lia|]. cbn [andb].
-  unfold ping_and_sleep. rewrite O. cbn. auto 10.
+  intros [H|[(H & _)|(_ & _ & St & A & L & O)]] Cl Dm; [left; exact H|congruence|]. right. unfold fire.
+  destruct (Z.ltb_spec (k_prev s) (k_last s)); [lia|].
+  destruct O as [(O & T)|(O & P)]; rewrite O; cbn [andb].
+  - destruct (Z.ltb_spec (k_streams s) 1); [lia|]. cbn [andb]. unfold ping_and_sleep. rewrite O, A. cbn.
+    right. repeat split; auto; try (right; split; [reflexivity|exact T]).
+  - destruct (k_left s <=? 0); [cbn; left; auto|].
+    destruct (Z.ltb_spec (k_streams s) 1); [lia|]. cbn [andb]. unfold ping_and_sleep. rewrite O. cbn.
+    right. repeat split; auto.
 Qed.
 Lemma winv_advance fuel c : forall s target hw, winv s hw -> winv (fst (advance fuel c s target)) hw.
 Proof.
   induction fuel as [|f IH]; intros s target hw W; cbn [advance]; [exact W|].
   destruct (k_closed s || k_dorm s || (target <=? k_timer s)) eqn:E.
-  - cbn [fst]. destruct W as [H|(P & H)]; [left; exact H|right]. cbn. auto.
+  - cbn [fst]. destruct W as [H|[H|H]]; [left; exact H|right; left; exact H|right; right; exact H].
   - apply orb_false_iff in E as [E _]. apply orb_false_iff in E as [E1 E2].
     pose proof (winv_fire c s hw W E1 E2) as W1. destruct (fire c s) as [s1 e1]. cbn [fst] in W1.
     specialize (IH s1 target hw W1). destruct (advance f c s1 target) as [s2 e2]. exact IH.
 Qed.
 
-Definition hw_next (s1 : kst) (o : kop) (hw : Z) : Z :=
+Definition hw_next (c : kcfg) (s1 : kst) (o : kop) (hw : Z) : Z :=
   if match o with
      | KOpen => k_dorm s1 && negb (k_closed s1) && (k_prev s1 <? k_last s1) && negb (k_ack s1)
      | _ => false
-     end then k_now s1
+     end then Z.max (k_now s1) (k_last s1 + kc_time c)
   else match o with KRead | KCloseStream | KAckOn => -1 | _ => hw end.
 
-Lemma winv_act c s1 o hw : kinv c s1 -> winv s1 hw -> winv (fst (act c s1 o)) (hw_next s1 o hw).
+Lemma winv_act c s1 o hw : cfg_ok c -> kinv c s1 -> winv s1 hw -> winv (fst (act c s1 o)) (hw_next c s1 o hw).
 Proof.
-  intros I W. unfold hw_next, act. pose proof (i_str _ _ I) as St.
+  intros C I W. unfold hw_next, act. pose proof (i_str _ _ I) as St.
   destruct (k_closed s1) eqn:Cl.
   - rewrite andb_false_r. cbn [negb andb fst].
     destruct o; cbn [andb]; try (left; lia); exact W.
@@ -433,17 +453,24 @@ Proof.
     + exact W.
     + left; lia.
     + destruct (k_dorm s1) eqn:Dm.
-      * cbn [negb andb]. pose proof (i_dorm _ _ I Dm) as O.
-        destruct ((k_prev s1 <? k_last s1) && negb (k_ack s1)) eqn:E.
-        -- apply andb_true_iff in E as [_ E]. apply negb_true_iff in E.
-           right. unfold ping_and_sleep. cbn. rewrite O, E. cbn. split; [reflexivity|]. right. repeat split; lia.
-        -- destruct W as [H|(P & [H|(O' & _)])]; [left; exact H|congruence|congruence].
-      * cbn [andb]. destruct W as [H|(P & [H|(O' & L & S1 & A & D)])]; [left; exact H|congruence|].
-        right. cbn. split; [exact P|]. right. repeat split; auto; lia.
+      * cbn [negb andb]. destruct (i_dorm _ _ I Dm) as [_ O].
+        destruct (Z.ltb_spec (k_prev s1) (k_last s1)) as [H|H]; cbn [andb].
+        -- destruct (k_ack s1) eqn:A; cbn [negb].
+           ++ destruct W as [H0|[(H0 & _)|(_ & H0 & _)]]; [left; exact H0|congruence|congruence].
+           ++ right. right. cbn [k_timer k_now].
+              destruct (Z.leb_spec (Z.max (k_now s1) (k_last s1 + kc_time c)) (k_now s1)) as [Hm|Hm].
+              ** assert (Tm : Z.max (k_now s1) (k_last s1 + kc_time c) = k_now s1) by lia.
+                 unfold fire. cbn [k_prev k_last k_out k_timer k_streams andb]. rewrite Z.ltb_irrefl.
+                 destruct (Z.ltb_spec (k_streams s1 + 1) 1); [lia|]. cbn [andb]. unfold ping_and_sleep. cbn.
+                 repeat split; auto; try lia; try (right; split; reflexivity).
+              ** cbn. repeat split; auto; try lia; try (left; split; reflexivity).
+        -- destruct W as [H0|[(H0 & _)|(_ & H0 & _)]]; [left; exact H0|congruence|congruence].
+      * cbn [andb]. destruct W as [H|[(H & _)|(_ & D & S1 & A & L & O)]]; [left; exact H|congruence|].
+        right. right. cbn. repeat split; auto; lia.
     + left; lia.
     + left; lia.
-    + destruct W as [H|(P & [H|(O' & L & S1 & A & D)])]; [left; exact H|congruence|].
-      right. cbn. auto 10.
+    + destruct W as [H|[(H & _)|(_ & D & S1 & A & L & O)]]; [left; exact H|congruence|].
+      right. right. cbn. repeat split; auto.
 Qed.
 
 Lemma kclause_ok c s h x o : cfg_ok c -> 0 <= x -> kinv c s -> h_ping h = k_ping s -> winv s (h_wake h) ->
@@ -454,21 +481,21 @@ Proof.
   intros C Hx I Hp W. cbv zeta. unfold kclause. rewrite evs_flat.
   destruct (kstep_ok c s x o C Hx I) as [_ K]. cbv zeta in K.
   set (s1 := fst (advance (fuel_for c (1000 * x + 1)) c s (k_now s + (1000 * x + 1)))).
-  fold (hw_next s1 o (h_wake h)).
-  assert (W' : winv (fst (kstep c s x o)) (hw_next s1 o (h_wake h))).
+  fold (hw_next c s1 o (h_wake h)).
+  assert (W' : winv (fst (kstep c s x o)) (hw_next c s1 o (h_wake h))).
   { unfold kstep. pose proof (winv_advance (fuel_for c (1000 * x + 1)) c s (k_now s + (1000 * x + 1)) _ W) as W1.
     pose proof (proj1 (advance_ok (fuel_for c (1000 * x + 1)) c C s (k_now s + (1000 * x + 1)) I ltac:(lia))) as I1.
     fold s1 in W1, I1. subst s1.
     destruct (advance (fuel_for c (1000 * x + 1)) c s (k_now s + (1000 * x + 1))) as [sa ea]. cbn [fst] in *.
-    pose proof (winv_act c sa o _ I1 W1) as W2. destruct (act c sa o) as [sb eb]. exact W2. }
-  specialize (K (k_last (fst (kstep c s x o))) (hw_next s1 o (h_wake h)) (k_wake (fst (kstep c s x o)))).
-  assert (F : final_ok (fst (kstep c s x o)) (k_last (fst (kstep c s x o))) (hw_next s1 o (h_wake h)) (k_wake (fst (kstep c s x o)))).
-  { intros _. split; [reflexivity|]. split; [reflexivity|]. destruct W' as [H|(P & _)]; [left; exact H|right; exact P]. }
+    pose proof (winv_act c sa o _ C I1 W1) as W2. destruct (act c sa o) as [sb eb]. exact W2. }
+  specialize (K (k_last (fst (kstep c s x o))) (hw_next c s1 o (h_wake h))).
+  assert (F : final_ok (fst (kstep c s x o)) (k_last (fst (kstep c s x o))) (hw_next c s1 o (h_wake h))).
+  { intros Hc. split; [reflexivity|]. destruct W' as [H|[(_ & P)|(H & _)]]; [left; exact H|right; exact P|congruence]. }
   specialize (K F).
-  match goal with |- context [fold_left (kcl_step c ?lv ?hw ?wk) ?l ([], h_ping h)] =>
-    destruct (fold_chk c lv hw wk l [] (h_ping h) (k_ping (fst (kstep c s x o))) eq_refl) as [F1 F2];
+  match goal with |- context [fold_left (kcl_step c ?lv ?hw) ?l ([], h_ping h)] =>
+    destruct (fold_chk c lv hw l [] (h_ping h) (k_ping (fst (kstep c s x o))) eq_refl) as [F1 F2];
     [rewrite Hp; exact K|];
-    destruct (fold_left (kcl_step c lv hw wk) l ([], h_ping h)) as [cl p] end.
+    destruct (fold_left (kcl_step c lv hw) l ([], h_ping h)) as [cl p] end.
   cbn [fst snd h_ping h_wake] in *. auto.
 Qed.
 
